@@ -203,7 +203,14 @@ def main(run):
             return labels[s % len(labels)]
         w = RiverWrapper(pred)
         seen_labels = []
-        for call in range(12):
+        if rep % 30 == 4:          # a long-lived wrapper over a large, slowly growing label set
+            labels = [f"lab{j}" for j in range(60)]
+            kind = "str"
+
+            def pred(x, labels=labels):      # noqa: F811
+                return labels[int(abs(sum(x.values()))) % len(labels)]
+            w = RiverWrapper(pred)
+        for call in range(12 if rep % 30 != 4 else 300):
             batch = rnd.random() < 0.4
             xs = [rand_x() for _ in range(rnd.choice([1, 2, 5]) if batch else 1)]
             exps = []
